@@ -10,6 +10,7 @@ import (
 	"path/filepath"
 	"strconv"
 	"strings"
+	"sync/atomic"
 	"testing"
 	"testing/synctest"
 	"time"
@@ -390,7 +391,8 @@ func buildCases(prop string, seed uint64, tier string, shard, nshard int, fixes 
 	var cs []caseDesc
 	add := func(name string, f func(r *gen.Rng, o *out.W)) {
 		seed := r.U64()
-		if (*fMode == "seq" && name == "concurrent") || (*fMode == "conc" && name != "concurrent") {
+		conc := name == "concurrent" || name == "start during stop"
+		if (*fMode == "seq" && conc) || (*fMode == "conc" && !conc) {
 			return
 		}
 		cs = append(cs, caseDesc{name: name, seed: seed, run: f})
@@ -413,6 +415,9 @@ func buildCases(prop string, seed uint64, tier string, shard, nshard int, fixes 
 		})
 		if i%4 == 0 {
 			add("concurrent", func(r *gen.Rng, o *out.W) { concurrentCase(r, o, prop, fixes) })
+		}
+		if i%2 == 1 {
+			add("start during stop", func(r *gen.Rng, o *out.W) { overlapCase(r, o, prop, fixes) })
 		}
 		add("random offline queueing", func(r *gen.Rng, o *out.W) {
 			cc := caseCfg{cap: r.Pick(2, 4, 100), resub: true, validate: true, clean: r.Intn(3) == 0, tm: defaultTiming}
@@ -441,11 +446,27 @@ func TestHarness(t *testing.T) {
 			o.Close()
 			os.Exit(3)
 		}
+		// real-time guard (outside every bubble): a case that does not end within minutes of wall
+		// clock time has stalled the fake clock (e.g. a goroutine parked on a sync.Mutex whose holder
+		// waits for a timer) — report instead of hanging until the check's timeout
+		var caseNo, caseSince atomic.Int64
+		caseSince.Store(time.Now().UnixNano())
+		go func() {
+			for {
+				time.Sleep(time.Second)
+				if time.Duration(time.Now().UnixNano()-caseSince.Load()) > 5*time.Minute {
+					fmt.Printf("harness: case %d (%s) does not end: the fake clock is stalled\n", caseNo.Load(), cases[caseNo.Load()].name)
+					os.Exit(4)
+				}
+			}
+		}()
 		for i := *fFrom; i < len(cases); i++ {
 			if *fOnly >= 0 && i != *fOnly {
 				continue
 			}
 			os.WriteFile(filepath.Join(*fOut, "current"), []byte(strconv.Itoa(i)), 0o644)
+			caseNo.Store(int64(i))
+			caseSince.Store(time.Now().UnixNano())
 			runCase(t, o, cases[i])
 		}
 		_ = distinct
